@@ -8,10 +8,10 @@ EPS = ["", "ε", "_", "e"]
 
 
 @st.composite
-def pda_specs(draw, max_states=4, sigma=None, max_gamma=3, max_trans=8, eps_choices=EPS, pool=POOL, min_trans=1, multichar=False):
+def pda_specs(draw, max_states=4, sigma=None, max_gamma=3, max_trans=8, eps_choices=EPS, pool=POOL, min_trans=1, multichar=False, odd=False):
     n = draw(st.integers(1, max_states))
     Q = draw(names(n, pool))
-    S = list(sigma) if sigma is not None else draw(st.sampled_from([["a"], ["a", "b"], ["a", "b"], []]))
+    S = list(sigma) if sigma is not None else draw(st.sampled_from([["a"], ["a", "b"], ["a", "b"], []] + ([["_", "a"], ["a", "ε"]] if odd else [])))
     gchoices = [g for g in STACK]
     if multichar and draw(st.integers(0, 5)) == 0:
         gchoices = ["X", "XX", "XY", "Y"]        # stack symbols of different lengths whose concatenations coincide ([X,X] vs [XX])
@@ -116,7 +116,16 @@ def _ambiguous_stacks(eps):
             "q0": "q0", "F": ["q4"], "eps": eps}
 
 
-TEMPLATES = [_anbn, _pal, _nonempty_stack, _replace, _diamond, _replace_only, _counter_and_sink]
+def _drain_dead_ends(eps):
+    # a^n (n >= 1): every a is pushed, or (non-deterministically) leads to one of two dead ends; at the end the whole stack is drained by eps-pops.
+    # One eps-closure starts from several configurations, and all the work is behind one of them.
+    return {"Q": ["i", "s", "d1", "d2", "t", "f"], "S": ["a"], "G": ["$", "A"],
+            "d": [["i", eps, eps, "s", "$"], ["s", "a", eps, "s", "A"], ["s", "a", eps, "d1", eps], ["s", "a", eps, "d2", eps],
+                  ["s", eps, "A", "t", eps], ["t", eps, "A", "t", eps], ["t", eps, "$", "f", eps]],
+            "q0": "i", "F": ["f"], "eps": eps}
+
+
+TEMPLATES = [_anbn, _pal, _nonempty_stack, _replace, _diamond, _replace_only, _counter_and_sink, _drain_dead_ends]
 TEMPLATES_MULTICHAR = TEMPLATES + [_ambiguous_stacks]
 
 
